@@ -10,6 +10,8 @@ import (
 	"encoding/hex"
 	"encoding/json"
 	"fmt"
+	"github.com/gr33nbl00d/caddy-revocation-validator/crl/crlloader"
+	"go.uber.org/zap"
 	"math/big"
 	"os"
 	"os/exec"
@@ -32,7 +34,7 @@ import (
 // deterministically by c07Cases; workers take indices i mod n.
 
 type c07Case struct {
-	Target string // readcrl | aki | ski | generalname | rdn
+	Target string // readcrl | aki | ski | generalname | rdn | issuer | download
 	Data   []byte
 	Label  string
 	Lazy   bool // extend lazily (depth 2) when the parser asks for more bytes
@@ -147,6 +149,15 @@ func c07Seeds() map[string][]byte {
 }
 
 func c07Cases(tier string, emit func(c c07Case)) {
+	// the loader in front of the reader: Content-Length is a length field too
+	for _, body := range [][]byte{[]byte("sixteen bytes!!!\n"), c07Seeds()["v2-ec"], {}} {
+		for _, announced := range []int64{int64(len(body)), int64(len(body)) - 1, int64(len(body)) + 1000, 1 << 31, 3 << 30, 1 << 40, 1 << 62, 1<<63 - 1, -5} {
+			if announced == 0 {
+				continue
+			}
+			emit(c07Case{"download", body, fmt.Sprintf("download body=%d announced=%d", len(body), announced), false})
+		}
+	}
 	full := tier == "thorough"
 	seeds := c07Seeds()
 	var names []string
@@ -458,6 +469,22 @@ func c07Run(c c07Case) (out c07Outcome) {
 			for _, alg := range []x509.PublicKeyAlgorithm{x509.ECDSA, x509.RSA} {
 				_, err = core.FindCertificateIssuerCandidates(iss, &[]pkix.Extension{}, alg, chains)
 			}
+			out.Result = errClass(err)
+		case "download":
+			// the URL loader against an origin whose Content-Length header announces something else than it sends
+			var announced int64
+			fmt.Sscanf(c.Label[strings.Index(c.Label, "announced=")+len("announced="):], "%d", &announced)
+			net := world.NewNet()
+			const u = "http://crl.test/lying-length.crl"
+			net.Routes[u] = &world.Behaviour{Label: "lying", Body: c.Data, ContentLength: announced}
+			l := crlloader.URLLoader{UrlString: u, Logger: zap.NewNop()}
+			f := filepath.Join(c07Dir, "download.tmp")
+			err := l.LoadCRL(f)
+			if got, _ := os.ReadFile(f); err == nil && !bytes.Equal(got, c.Data) {
+				err = fmt.Errorf("downloaded file differs from what the origin sent")
+				out.Class, out.Detail = "wrong-file", err.Error()
+			}
+			os.Remove(f)
 			out.Result = errClass(err)
 		case "generalname":
 			g := extensionsupport.GeneralName{Raw: c.Data}
